@@ -716,13 +716,61 @@ def check_rrblup(prog, rep):
         rep.ok("R7-rrblup", f.qualname, "intercept = uncentred mean; ridge = varE/varU on the diagonal of Z'Z; Z'y; Gauss-Seidel sweep; monomorphic markers -> 0")
 
 
+def check_stack_and_response(prog, rep):
+    """R8-stack: `u` is the stacked coefficient vector the kernels multiply the stacked design [Z_misc, Z_a(, Z_d)] with: [u_misc; u_a(; u_d)] in that order along axis 0.
+    R9-response: a breeding-value matrix handed to fit / score as response is read on the original scale (`ptobj.unscale()`), never as the standardised store `.mat`."""
+    want = {"DenseAdditiveLinearGenomicModel": ["u_misc", "u_a"], "DenseAdditiveDominanceLinearGenomicModel": ["u_misc", "u_a", "u_d"]}
+    for cname, order in want.items():
+        K = prog.get_class(cname, GM + cname)
+        P = K.own_props.get("u")
+        f = P.getter if P is not None else None
+        if f is None:
+            rep.unrec("R8-stack", K.qualname, "u getter vanished")
+            continue
+        rep.saw(f)
+        cc = [c_ for c_ in walk_no_nested(f.node) if isinstance(c_, ast.Call) and (prog.dotted(f.module, c_.func) or "") in ("numpy.concatenate", "numpy.vstack", "numpy.row_stack")]
+        if len(cc) != 1 or not cc[0].args or not isinstance(cc[0].args[0], (ast.List, ast.Tuple)):
+            rep.unrec("R8-stack", f.qualname, "u is not one concatenation of the coefficient blocks")
+            continue
+        got = [field_of(e) for e in cc[0].args[0].elts]
+        got = [g_.lstrip("_") if g_ else None for g_ in got]
+        kws, _ = kwargs_of(cc[0])
+        ax = cc[0].args[1] if len(cc[0].args) > 1 else kws.get("axis")
+        if got == order and (ax is None or (isinstance(ax, ast.Constant) and ax.value == 0)):
+            rep.ok("R8-stack", f.qualname, "u = [%s] along axis 0" % "; ".join(order))
+        elif None not in got and sorted(got) == sorted(order):
+            rep.violate("R8-stack", f.qualname, "the coefficient blocks are stacked as [%s]; the design the kernels multiply them with is [%s]: covariates meet the effects of the "
+                        "other block" % ("; ".join(got), "; ".join(order)), where(f, cc[0]), str(order), str(got))
+        else:
+            rep.unrec("R8-stack", f.qualname, "stacked blocks %s" % got)
+    for m in sorted(prog.modules.values(), key=lambda m_: m_.name):
+        if not m.name.startswith(GM):
+            continue
+        for c in m.classes.values():
+            for f in c.methods.values():
+                for st in walk_no_nested(f.node):
+                    if not (isinstance(st, ast.If) and "isinstance(ptobj,BreedingValueMatrix)" in "".join(dump(st.test).split())):
+                        continue
+                    rep.saw(f)
+                    asg = [x for x in st.body if isinstance(x, ast.Assign)]
+                    vals = [dump(x.value) for x in asg]
+                    construct = "%s#response" % f.qualname
+                    if any(v == "ptobj.unscale()" for v in vals):
+                        rep.ok("R9-response", construct, "response read on the original scale")
+                    elif any(v in ("ptobj.mat", "ptobj._mat") for v in vals):
+                        rep.violate("R9-response", construct, "the response is the STANDARDISED store of the breeding-value matrix (ptobj.mat): the model is fitted / scored on centred, "
+                                    "unit-scale values - the intercept no longer reproduces the training mean", where(f, st), "ptobj.unscale()", "ptobj.mat")
+                    else:
+                        rep.unrec("R9-response", construct, "response taken as %s" % vals)
+
+
 def run(prog, rep, tier):
     rep.explanation = ("Spec congruence of the numpy kernels, count/flag definitions and the rrBLUP assembly through an algebraic normal form, plus structural rules for the "
                        "intercept row, the dominance design blocks, genotype coding, label hand-off and same-named parameter forwarding; the boundary-exactness taint of C09 "
                        "is applied to the model code.")
     rep.not_decided = ["convergence of Nelder-Mead and Gauss-Seidel, 'never worse than the zero solution' (numerical optimisation)",
                        "invariance to taxon order and marker partition as numerical facts (they follow from R1 for exact arithmetic)"]
-    for r, n in (("R1-linear", 18), ("R2-coding", 10), ("R3-labels", 5), ("R4-counts", 12), ("R5-forward", 10), ("R5-exact-at-one", 4), ("R7-rrblup", 1)):
+    for r, n in (("R1-linear", 18), ("R2-coding", 10), ("R3-labels", 5), ("R4-counts", 12), ("R5-forward", 10), ("R5-exact-at-one", 4), ("R7-rrblup", 1), ("R8-stack", 2), ("R9-response", 4)):
         rep.floor(r, n)
     check_kernels(prog, rep)
     check_coding_labels(prog, rep)
@@ -730,4 +778,5 @@ def run(prog, rep, tier):
     check_forwarding(prog, rep)
     c09.check_exactness(prog, rep, tier, sink_filter=c09.NOT_SELECTION)
     check_rrblup(prog, rep)
+    check_stack_and_response(prog, rep)
     wire(prog, rep, "C04", 1, 190)
